@@ -775,6 +775,15 @@ func (r *renderer) ref(t *Term) string {
 	for i, a := range t.Args {
 		args[i] = r.ref(a)
 	}
+	body := opText(t, args, r.cvc5)
+	r.n++
+	name := fmt.Sprintf("t!%d", r.n)
+	fmt.Fprintf(&r.defs, "(define-fun %s () %s %s)\n", name, t.S.SMT(), body)
+	r.names[t] = name
+	return name
+}
+
+func opText(t *Term, args []string, cvc5 bool) string {
 	var body string
 	switch t.Op {
 	case "extract":
@@ -784,7 +793,7 @@ func (r *renderer) ref(t *Term) string {
 	case "int2bv":
 		body = fmt.Sprintf("((_ int2bv %d) %s)", t.P[0], args[0])
 	case "bv2nat":
-		if r.cvc5 {
+		if cvc5 {
 			body = fmt.Sprintf("(bv2nat %s)", args[0])
 		} else {
 			body = fmt.Sprintf("(bv2int %s)", args[0])
@@ -806,11 +815,7 @@ func (r *renderer) ref(t *Term) string {
 	default:
 		body = "(" + t.Op + " " + strings.Join(args, " ") + ")"
 	}
-	r.n++
-	name := fmt.Sprintf("t!%d", r.n)
-	fmt.Fprintf(&r.defs, "(define-fun %s () %s %s)\n", name, t.S.SMT(), body)
-	r.names[t] = name
-	return name
+	return body
 }
 
 // Render produces the declarations, definitions and assertions for a query.
